@@ -35,7 +35,10 @@ NoId == <<>>
 \* dupOf: 0 for a first transmission, else the 1-based position in `sent` of the
 \*        first transmission this message is byte-identical to
 Msg(ty, seq) == [ty |-> ty, seq |-> seq, hb |-> -1, enc |-> "", refSeq |-> -1, refTag |-> -1,
-                 trid |-> NoId, b |-> -1, e |-> -1, dupOf |-> 0]
+                 trid |-> NoId, b |-> -1, e |-> -1, dupOf |-> 0, user |-> "", pass |-> ""]
+\* credentials the harness configures on an initiating session (LogonSettings.Username / Password)
+CfgUser == "user"
+CfgPass == "good"
 
 \* ---- configuration and initial state ---------------------------------------
 \* role: "acceptor" | "initiator"; hbMin/hbMax: acceptor limits (seconds); hbCfg/encCfg:
@@ -187,11 +190,11 @@ Recv(s, a) ==
 \* Session.Run(): acceptor waits for a Logon; initiator sends its Logon first
 Run(s) ==
   IF s.cfg.role = "initiator"
-  THEN Emit(Ev([s EXCEPT !.st = "WLA"], "request?"), [Msg("A", 0) EXCEPT !.hb = s.cfg.hbCfg, !.enc = s.cfg.encCfg])
+  THEN Emit(Ev([s EXCEPT !.st = "WLA"], "request?"), [Msg("A", 0) EXCEPT !.hb = s.cfg.hbCfg, !.enc = s.cfg.encCfg, !.user = CfgUser, !.pass = CfgPass])
   ELSE [s EXCEPT !.st = "WL"]
 
 \* Session.LogonRequest() on an initiator that logged out: a new Logon, waiting for the answer again
-Relogon(s) == Emit(Ev([s EXCEPT !.st = "WLA"], "request?"), [Msg("A", 0) EXCEPT !.hb = s.cfg.hbCfg, !.enc = s.cfg.encCfg])
+Relogon(s) == Emit(Ev([s EXCEPT !.st = "WLA"], "request?"), [Msg("A", 0) EXCEPT !.hb = s.cfg.hbCfg, !.enc = s.cfg.encCfg, !.user = CfgUser, !.pass = CfgPass])
 
 AppType == "V"   \* the harness sends a MarketDataRequest as its application message
 AppSend(s) == Emit(s, Msg(AppType, 0))
